@@ -13,6 +13,7 @@ residues are corollaries; `c19_concurrent_distinct_residues` states the concurre
 threads whose calls are atomic read-modify-writes (that each call of the real code is exactly one `fetch_or` / `fetch_and` is checked
 under the deterministic scheduler by the correspondence run).
 -/
+set_option linter.unusedSimpArgs false
 namespace C19
 open Gen.BitMap Spec.BitMap Model.BitMap
 
@@ -37,8 +38,16 @@ theorem testBit_clear (w b j : Nat) (hj : j < 64) :
   rw [Nat.testBit_and, Nat.testBit_xor, Nat.testBit_two_pow, Nat.testBit_two_pow_sub_one]
   simp [hj]
 
-theorem log2_word_bits : log2 WORD_BITS = 6 := by decide
-theorem word_bits_mask_eq : WORD_BITS - 1 = 2 ^ 6 - 1 := by decide
+/-- `(v >> b) & 1 == 1`, the other spelling of the bit test -/
+theorem shr_and_one_eq_one (v b : Nat) : (((v >>> b) &&& 1) == 1) = v.testBit b := by
+  simp [Nat.testBit, Nat.and_comm]
+theorem shr_mod_two_eq_one (v b : Nat) : ((v >>> b) % 2 == 1) = v.testBit b := by
+  simp [Nat.testBit, Nat.and_comm]
+
+theorem masked_eq (k s : Nat) : s &&& (2 ^ k - 1) = s % 2 ^ k := Nat.and_two_pow_sub_one_eq_mod s k
+theorem log2_64 : log2 64 = 6 := by decide
+theorem and_63 (m : Nat) : m &&& 63 = m % 64 := Nat.and_two_pow_sub_one_eq_mod m 6
+theorem shr_6 (m : Nat) : m >>> 6 = m / 64 := by simp [Nat.shiftRight_eq_div_pow]
 
 /-- the cell (slot, bit) a sequence number is mapped to, as plain arithmetic -/
 def slotOf (c s : Nat) : Nat := (s % c) / 64
@@ -55,46 +64,78 @@ theorem slotOf_lt (c s : Nat) (hc : 0 < c) : slotOf c s < (c + 63) / 64 := by
   have := Nat.mod_lt s hc
   omega
 
-/-! ## the generated functions in normal form -/
+/-! ## the generated functions in normal form
 
-/-- shape of a bit map built for capacity `c` (everything except the words) -/
-structure Shape (c : Nat) (bm : BitMap) : Prop where
-  mask : bm.index_mask = c - 1
-  shift : bm.index_shift = 6
-  wmask : bm.word_bits_mask = 63
-  len : bm.slots.length = (c + 63) / 64
+The lemmas of this section are the only place where the *shape* of the generated definitions matters. They are stated for
+"a bit map built for capacity `2^k`, with any word list in place of the fresh one" (`{ build (2^k) with slots := sl }`), which
+mentions no field but `slots` and no constant of the source, and they are proved by unfolding and `simp` with the value
+lemmas `NAME_val` the translator emits for every constant of bit_map.rs. So the field names, the order of the `let`s, whether
+shift and mask are fields computed in `build` or constants, a helper that the translator inlined and the spelling of the bit
+test do not matter; a wrong mask, shift, word index or bit does. -/
 
-theorem build_shape (c : Nat) : Shape c (build c) := by
-  refine ⟨rfl, log2_word_bits, rfl, ?_⟩
-  simp [build, WORD_BITS]
+theorem is_set_build (k : Nat) (sl : List Nat) (s : Nat) :
+    is_set { build (2 ^ k) with slots := sl } s = (sl[slotOf (2 ^ k) s]?).map (fun w => w.testBit (bitOf (2 ^ k) s)) := by
+  unfold is_set slotOf bitOf
+  simp [build, log2_64, masked_eq, and_63, shr_6, and_one_shl_ne_zero, shr_and_one_eq_one, shr_mod_two_eq_one]
+  split <;> simp_all
 
-theorem masked_eq (k s : Nat) : s &&& (2 ^ k - 1) = s % 2 ^ k := Nat.and_two_pow_sub_one_eq_mod s k
+theorem set_build (k : Nat) (sl : List Nat) (s : Nat) :
+    Gen.BitMap.set { build (2 ^ k) with slots := sl } s = (sl[slotOf (2 ^ k) s]?).map
+      (fun w => { build (2 ^ k) with slots := sl.set (slotOf (2 ^ k) s) (w ||| 2 ^ bitOf (2 ^ k) s) }) := by
+  unfold Gen.BitMap.set slotOf bitOf
+  simp [build, log2_64, masked_eq, and_63, shr_6, Nat.one_shiftLeft]
+  split <;> simp_all
+
+theorem unset_build (k : Nat) (sl : List Nat) (s : Nat) :
+    unset { build (2 ^ k) with slots := sl } s = (sl[slotOf (2 ^ k) s]?).map
+      (fun w => { build (2 ^ k) with slots := sl.set (slotOf (2 ^ k) s) (w &&& (2 ^ bitOf (2 ^ k) s ^^^ (2 ^ 64 - 1))) }) := by
+  unfold unset slotOf bitOf
+  simp [build, log2_64, masked_eq, and_63, shr_6, Nat.one_shiftLeft]
+  split <;> simp_all
+
+/-- the word index the three generated index functions compute (used by the happens-before model of the ring) -/
+theorem index_build (k : Nat) (sl : List Nat) (s : Nat) :
+    is_set_index { build (2 ^ k) with slots := sl } s = slotOf (2 ^ k) s ∧
+    set_index { build (2 ^ k) with slots := sl } s = slotOf (2 ^ k) s ∧
+    unset_index { build (2 ^ k) with slots := sl } s = slotOf (2 ^ k) s := by
+  unfold is_set_index set_index unset_index slotOf
+  simp [build, log2_64, masked_eq, and_63, shr_6]
+
+theorem build_slots (c : Nat) : (build c).slots = List.replicate ((c + 63) / 64) 0 := by
+  simp [build]
+
+/-- shape of a bit map built for capacity `c`: everything except the words is as `build c` made it -/
+def Shape (c : Nat) (bm : BitMap) : Prop :=
+  bm.slots.length = (c + 63) / 64 ∧ bm = { build c with slots := bm.slots }
+
+theorem Shape.len {c : Nat} {bm : BitMap} (h : Shape c bm) : bm.slots.length = (c + 63) / 64 := h.1
+
+theorem build_shape (c : Nat) : Shape c (build c) := ⟨by simp [build_slots], rfl⟩
+
+theorem shape_with_slots {c : Nat} {bm : BitMap} (h : Shape c bm) (sl : List Nat) (hl : sl.length = bm.slots.length) :
+    Shape c { bm with slots := sl } := by
+  refine ⟨hl.trans h.1, ?_⟩
+  have := h.2
+  show ({ bm with slots := sl } : BitMap) = { build c with slots := sl }
+  rw [this]
 
 theorem is_set_nf {k : Nat} {bm : BitMap} (h : Shape (2 ^ k) bm) (s : Nat) :
     is_set bm s = (bm.slots[slotOf (2 ^ k) s]?).map (fun w => w.testBit (bitOf (2 ^ k) s)) := by
-  have h63 : (63 : Nat) = 2 ^ 6 - 1 := by decide
-  unfold is_set slotOf bitOf
-  simp only [h.mask, h.shift, h.wmask, masked_eq, Nat.shiftRight_eq_div_pow, and_one_shl_ne_zero]
-  rw [h63, masked_eq]
-  cases bm.slots[s % 2 ^ k / 2 ^ 6]? <;> rfl
+  rw [h.2]; exact is_set_build k bm.slots s
 
 theorem set_nf {k : Nat} {bm : BitMap} (h : Shape (2 ^ k) bm) (s : Nat) :
     Gen.BitMap.set bm s = (bm.slots[slotOf (2 ^ k) s]?).map
       (fun w => { bm with slots := bm.slots.set (slotOf (2 ^ k) s) (w ||| 2 ^ bitOf (2 ^ k) s) }) := by
-  have h63 : (63 : Nat) = 2 ^ 6 - 1 := by decide
-  unfold Gen.BitMap.set slotOf bitOf
-  simp only [h.mask, h.shift, h.wmask, masked_eq, Nat.shiftRight_eq_div_pow, Nat.one_shiftLeft]
-  rw [h63, masked_eq]
-  cases bm.slots[s % 2 ^ k / 2 ^ 6]? <;> rfl
+  rw [h.2]; exact set_build k bm.slots s
 
 theorem unset_nf {k : Nat} {bm : BitMap} (h : Shape (2 ^ k) bm) (s : Nat) :
     unset bm s = (bm.slots[slotOf (2 ^ k) s]?).map
       (fun w => { bm with slots := bm.slots.set (slotOf (2 ^ k) s) (w &&& (2 ^ bitOf (2 ^ k) s ^^^ (2 ^ 64 - 1))) }) := by
-  have h63 : (63 : Nat) = 2 ^ 6 - 1 := by decide
-  unfold unset slotOf bitOf
-  simp only [h.mask, h.shift, h.wmask, masked_eq, Nat.shiftRight_eq_div_pow, Nat.one_shiftLeft]
-  rw [h63, masked_eq]
-  cases bm.slots[s % 2 ^ k / 2 ^ 6]? <;> rfl
+  rw [h.2]; exact unset_build k bm.slots s
+
+theorem index_nf {k : Nat} {bm : BitMap} (h : Shape (2 ^ k) bm) (s : Nat) :
+    is_set_index bm s = slotOf (2 ^ k) s ∧ set_index bm s = slotOf (2 ^ k) s ∧ unset_index bm s = slotOf (2 ^ k) s := by
+  rw [h.2]; exact index_build k bm.slots s
 
 /-! ## refinement invariant -/
 
@@ -111,8 +152,7 @@ structure Inv (c : Nat) (bm : BitMap) (hist : List Op) : Prop where
 theorem inv_build (k : Nat) : Inv (2 ^ k) (build (2 ^ k)) [] := by
   refine ⟨build_shape _, fun s => ⟨0, ?_, by simp [isSet]⟩⟩
   have := slotOf_lt (2 ^ k) s (Nat.two_pow_pos k)
-  simp only [build, WORD_BITS, List.getElem?_replicate]
-  rw [if_pos (by omega)]
+  rw [build_slots, List.getElem?_replicate, if_pos (by omega)]
 
 theorem inv_step {k : Nat} {bm : BitMap} {hist : List Op} (h : Inv (2 ^ k) bm hist) (op : Op) :
     ∃ bm', apply bm op = some bm' ∧ Inv (2 ^ k) bm' (op :: hist) := by
@@ -124,7 +164,7 @@ theorem inv_step {k : Nat} {bm : BitMap} {hist : List Op} (h : Inv (2 ^ k) bm hi
   | set s' =>
     simp only [Op.seq] at hw hlt
     refine ⟨_, by rw [apply, set_nf h.shape, hw]; rfl, ?_⟩
-    refine ⟨⟨h.shape.mask, h.shape.shift, h.shape.wmask, by simp [hlen]⟩, fun s => ?_⟩
+    refine ⟨shape_with_slots h.shape _ (by simp), fun s => ?_⟩
     obtain ⟨v, hv, hvb⟩ := h.cells s
     simp only [List.getElem?_set]
     rw [isSet_cons_set]
@@ -145,7 +185,7 @@ theorem inv_step {k : Nat} {bm : BitMap} {hist : List Op} (h : Inv (2 ^ k) bm hi
   | unset s' =>
     simp only [Op.seq] at hw hlt
     refine ⟨_, by rw [apply, unset_nf h.shape, hw]; rfl, ?_⟩
-    refine ⟨⟨h.shape.mask, h.shape.shift, h.shape.wmask, by simp [hlen]⟩, fun s => ?_⟩
+    refine ⟨shape_with_slots h.shape _ (by simp), fun s => ?_⟩
     obtain ⟨v, hv, hvb⟩ := h.cells s
     have hb64 := bitOf_lt (2 ^ k) s
     simp only [List.getElem?_set]
